@@ -1,6 +1,7 @@
 package main
 
 import (
+	"os"
 	"fmt"
 	"go/types"
 	"math/big"
@@ -414,6 +415,9 @@ func (u *Universe) structSort(named *types.Named, st *types.Struct) Sort {
 			break
 		}
 		name = fmt.Sprintf("%s_%d", base, i)
+	}
+	if name != base && os.Getenv("GOVC_DEBUG_SORTS") != "" {
+		fmt.Fprintf(os.Stderr, "sort %s for key %q (named=%v)\n", name, key, named != nil)
 	}
 	u.structKeys[key] = name
 	info := &structInfo{sort: Sort(name), st: st}
